@@ -72,6 +72,9 @@ type Node struct {
 	onPageWrite func(db *litefs.DB, pgno uint32, data []byte, invalidate bool)
 	onTruncate  func(db *litefs.DB, pageN uint32)
 
+	dmu      sync.Mutex
+	dentries map[string]fs.Node
+
 	mu      sync.Mutex
 	exits   []ExitEvent
 	panics  []*PanicError
@@ -287,8 +290,72 @@ func (n *Node) Lookup(name string) (fs.Node, error) {
 	return node, nil
 }
 
+// CacheDentry models the kernel's directory-entry cache for name: the node the
+// name resolves to now is remembered, and the next open of that name is sent to
+// it without a new lookup (as the kernel does for a minute after a lookup; an
+// unlink of the database drops the database's own entry only, LiteFS tells the
+// kernel about the companion files from a goroutine that runs later).
+func (n *Node) CacheDentry(name string) error {
+	node, err := n.Lookup(name)
+	if err != nil {
+		return err
+	}
+	n.dmu.Lock()
+	if n.dentries == nil {
+		n.dentries = map[string]fs.Node{}
+	}
+	n.dentries[name] = node
+	n.dmu.Unlock()
+	return nil
+}
+
+// DropDentries empties the modelled directory-entry cache.
+func (n *Node) DropDentries() {
+	n.dmu.Lock()
+	n.dentries = nil
+	n.dmu.Unlock()
+}
+
+// openCached sends the open to the node of a cached directory entry. ESTALE
+// makes the VFS drop the entry and walk the path again (ok=false); any other
+// answer is the application's answer.
+func (n *Node) openCached(name string) (f *File, ok bool, err error) {
+	n.dmu.Lock()
+	node := n.dentries[name]
+	n.dmu.Unlock()
+	if node == nil {
+		return nil, false, nil
+	}
+	op, isOpener := node.(fs.NodeOpener)
+	if !isOpener {
+		return nil, false, nil
+	}
+	var h fs.Handle
+	resp := &bfuse.OpenResponse{}
+	err = n.call(func() (e error) {
+		h, e = op.Open(bg, &bfuse.OpenRequest{Flags: bfuse.OpenReadWrite}, resp)
+		return
+	})
+	if Errno(err) == syscall.ESTALE {
+		n.dmu.Lock()
+		delete(n.dentries, name)
+		n.dmu.Unlock()
+		return nil, false, nil
+	}
+	if err != nil {
+		return nil, true, err
+	}
+	if resp.Flags&bfuse.OpenKeepCache == 0 {
+		n.Cache.dropFile(name)
+	}
+	return &File{n: n, Name: name, node: node, h: h}, true, nil
+}
+
 // Open opens an existing file.
 func (n *Node) Open(name string) (*File, error) {
+	if f, ok, err := n.openCached(name); ok {
+		return f, err
+	}
 	node, err := n.Lookup(name)
 	if err != nil {
 		return nil, err
@@ -320,6 +387,10 @@ func (n *Node) Open(name string) (*File, error) {
 
 // Create creates name (database, -journal, -wal, -shm).
 func (n *Node) Create(name string) (*File, error) {
+	// (a cached positive entry: open(O_CREAT) becomes an OPEN of that node)
+	if f, ok, err := n.openCached(name); ok {
+		return f, err
+	}
 	var node fs.Node
 	var h fs.Handle
 	err := n.call(func() (e error) {
